@@ -1,3 +1,5 @@
 //! Channel engines shared by the C06–C09 checks: E2 (deterministic scheduler) and E7 (OS-thread stress).
 pub mod e2;
 pub mod e7;
+
+pub mod fuzz;
